@@ -124,6 +124,10 @@ reg = {
         "guardmut": {"overlay": "units/guardmut.ovl", "canaries": ["canary_guardmut"],
                      "helpers": ["as_ref", "write_child_page", "new", "memory", "memory_mut", "get_page_number", "key", "value", "num_pairs", "entry",
                                  "free_if_uncommitted", "push", "build"]},
+        # the copy-on-write step and the branch disposition of the B-tree mutator
+        "cow": {"overlay": "units/cow.ovl", "canaries": ["canary_cow"],
+                "helpers": ["drop", "get_page_number", "new", "child_page", "child_checksum", "count_children", "write_child_page", "memory_mut",
+                            "uncommitted", "get_page_mut", "push_all", "replace_child", "build", "to_single_child", "required_bytes", "into_parts"]},
         "types_sep": {"overlay": "units/types_sep.ovl", "canaries": ["canary_types_sep"], "helpers": ["common_prefix_len"]},
         # the page-level checksum walk over an abstract page store
         "merkle": {"overlay": "units/merkle.ovl", "canaries": ["canary_merkle"],
@@ -248,10 +252,13 @@ P["C12"] = {
 }
 P["C10"] = {
     "level": "other",
-    "verus": [{"unit": "merkle", "functions": ["RawBtree::verify_checksum", "RawBtree::verify_checksum_helper"]}],
+    "verus": [{"unit": "merkle", "functions": ["RawBtree::verify_checksum", "RawBtree::verify_checksum_helper"]},
+              {"unit": "cow", "functions": ["MutateHelper::replace_branch_child", "MutateHelper::finalize_branch_builder"]},
+              {"unit": "search", "functions": ["BranchAccessor::child_for_key", "LeafAccessor::position"]}],
     "kani": [K["C10-F1"], K["C10-F2"], K["C10-F3"], K["C10-F4"], K["C10-F6a"], alias("C11-R3", "C10-F6b"), alias("C06-K2", "C10-F6c"),
              alias("C07-K1s", "C10-F6d"), alias("C04-L1f", "C10-P1f"), alias("C04-L1v", "C10-P1v")],
-    "explanation": "Kernel = format conformance: every fixed-size encoder (page number, tree header, commit slot, database header, freed-page key, allocator-state key, savepoint record, page list) writes exactly the byte layout of docs/design.md (offsets are literals transcribed from the document, not the code's constants) - complete, loop-free; leaf pages: offsets tables, entries and the checksummed prefix - bounded.",
+    "assumptions": ["K1 (cow unit): a branch page is the sequence of its (child page, checksum) pointers; BranchBuilder::build allocates a fresh page of this transaction holding exactly the pointers pushed (built_children, a function of the page number); get_page_mut records what is written through the handle against the page; the separator keys are not modelled"],
+    "explanation": "(V) checksum discipline of the mutator, verified on the REAL MutateHelper::replace_branch_child and finalize_branch_builder: a redirected child pointer always carries the DEFERRED checksum (recomputed at commit) - in place only on a page this transaction allocated, otherwise in a copy that differs from the original in exactly that pointer; a branch reduced to one child hands that child up WITH the checksum it carried, an under-full branch is handed up unbuilt with children, checksums and keys untouched. Kernel = format conformance: every fixed-size encoder (page number, tree header, commit slot, database header, freed-page key, allocator-state key, savepoint record, page list) writes exactly the byte layout of docs/design.md (offsets are literals transcribed from the document, not the code's constants) - complete, loop-free; leaf pages: offsets tables, entries and the checksummed prefix - bounded.",
     "not_decided": "strictly increasing keys, separator bounds, equal depth, stored counts, no page referenced twice (invariants of btree_mutator.rs over histories); branch pages (probed: too expensive for CBMC); XXH3-128 being XXH3-128",
     "assumptions": ["docs/design.md lists '40 bytes: padding' before the transaction id of a commit slot; the fields then sum to 136 bytes, not 128. The oracle uses 32 bytes of padding (transaction id at 104, checksum at 112), the only reading consistent with the stated slot size; the document, not the code, is off by 8."],
 }
@@ -271,10 +278,11 @@ P["C06"] = {
                                               "BuddyAllocator::record_alloc", "BuddyAllocator::record_alloc_inner", "BuddyAllocator::new", "BS::*",
                                               "InMemoryState::allocate_helper_retry", "TransactionalMemory::free_helper", "TransactionalMemory::free", "TransactionalMemory::free_if_unpersisted",
                                               "TransactionalMemory::claim_unpersisted", "PageAllocator::*", "Mutex::lock", "lemma_*"]},
-              {"unit": "tabledel", "functions": ["TableTreeMut::delete_table_core"]}],
+              {"unit": "tabledel", "functions": ["TableTreeMut::delete_table_core"]},
+              {"unit": "cow", "functions": ["MutateHelper::replace_branch_child"]}],
     "kani": [K["C06-K1"], K["C06-K2"], alias("C10-F6a", "C06-K1b")],
     "native": [dict(NATIVE["X-unp3"], id="C06-X-unp3"), dict(NATIVE["X-unp4"], id="C06-X-unp4"), dict(NATIVE["X-pins3"], id="C06-X-pins3"), dict(NATIVE["X-pins4"], id="C06-X-pins4")],
-    "explanation": "Kernel: no block is handed out twice (alloc returns a subset of the free set and removes exactly it - shared with C14); freed-page records are keyed (transaction, page) lexicographically so the reclaimer's range ..(free_until, 0) can never contain a record of a transaction >= free_until; the page-list record returns what was stored; the REAL free_if_unpersisted releases a page at once only when it is in the unpersisted set (allocated by a non-durable commit, so no durable root names it), removes it from that set together with the release, and otherwise changes nothing; the REAL PageAllocator::conditional_free / free_if_uncommitted release a page at once only when this transaction allocated it since its last commit (no committed root can name it) and otherwise queue it, exactly once, for the commit without touching the allocator; free_helper (whole function) makes exactly the block's pages free in its region and touches neither the header, nor another region, nor the storage.",
+    "explanation": "Kernel: no block is handed out twice (alloc returns a subset of the free set and removes exactly it - shared with C14); freed-page records are keyed (transaction, page) lexicographically so the reclaimer's range ..(free_until, 0) can never contain a record of a transaction >= free_until; the page-list record returns what was stored; the REAL free_if_unpersisted releases a page at once only when it is in the unpersisted set (allocated by a non-durable commit, so no durable root names it), removes it from that set together with the release, and otherwise changes nothing; the REAL MutateHelper::replace_branch_child never writes to a page this transaction did not allocate (a committed page, which a reader or a savepoint may still see, is copied instead); the REAL PageAllocator::conditional_free / free_if_uncommitted release a page at once only when this transaction allocated it since its last commit (no committed root can name it) and otherwise queue it, exactly once, for the commit without touching the allocator; free_helper (whole function) makes exactly the block's pages free in its region and touches neither the header, nor another region, nor the storage.",
     "not_decided": "the accounting equation over histories, readers and savepoints; conditional_free; the in-memory bookkeeping only BOUNDED (native, never counted as proved): UnpersistedState (allocations_after(t) returns exactly the allocations of later transactions, claim drops page and record together, data_freed_in_range / drop_data_freed_after bounds) and the TransactionTracker pin counts that define the oldest live reader",
 }
 P["C07"] = {
